@@ -8,6 +8,7 @@ from concurrent.futures import ThreadPoolExecutor
 sys.path.insert(0, os.path.dirname(os.path.abspath(__file__)))
 import c04 as g
 
+os.environ.setdefault("OMP_NUM_THREADS", "1")     # many runs in parallel: one thread each (no oversubscription, no timeouts under load)
 VERIF = g.VERIF
 INPUTS = ("topol.xml", "m.xml", "s.xml", "opt.xml", "traj.gro")
 
@@ -28,7 +29,7 @@ def run_nt(exe, s, nt):
         if s.nframes >= 0:
             cmd += ["--nframes", str(s.nframes)]
         try:
-            r = subprocess.run(cmd, cwd=d, stdout=subprocess.PIPE, stderr=subprocess.PIPE, timeout=180)
+            r = subprocess.run(cmd, cwd=d, stdout=subprocess.PIPE, stderr=subprocess.PIPE, timeout=900)
             rc = r.returncode
         except subprocess.TimeoutExpired:
             rc = 99
